@@ -852,8 +852,10 @@ func (fr *frame) fmtArgCells(verb byte, flags string, width int, arg value) []va
 		if x.w == 0 {
 			return []value{opaque{}}
 		}
-		if (verb == 'x' || verb == 'X') && !strings.ContainsAny(flags, "#+- ") {
-			return fr.hexCells(x, a.t, width, strings.Contains(flags, "0"), verb == 'X')
+		// exact hex only for the zero-padded fixed-width form (%08x, %02x: session ids, keys);
+		// other numeric formatting of symbolic values is console text and stays opaque
+		if (verb == 'x' || verb == 'X') && !strings.ContainsAny(flags, "#+- ") && strings.Contains(flags, "0") && width > 0 {
+			return fr.hexCells(x, a.t, width, true, verb == 'X')
 		}
 		if verb == 'c' && x.w == 8 {
 			return []value{x}
@@ -879,33 +881,22 @@ func widthStr(w int) string {
 	return strconv.Itoa(w)
 }
 
-// hexCells renders a symbolic integer in hex exactly, forking on the number of digits.
+// hexCells renders a symbolic integer as exactly `width` zero-padded hex digits when its
+// value fits (one two-way decision); values that need more digits yield an opaque cell.
 func (fr *frame) hexCells(x *Term, t types.Type, width int, zeroPad bool, upper bool) []value {
-	_, signed, _ := intInfo(t)
-	if signed {
-		neg := norm(mkCmp(OpSlt, x, mkConst(x.w, 0)), boolType)
-		if fr.truth(neg, "fmt-hex-sign") {
+	if 4*width < x.w {
+		lim := mkConst(x.w, uint64(1)<<uint(4*width))
+		if !fr.truth(norm(mkCmp(OpUlt, x, lim), boolType), "fmt-hex-fits") {
 			return []value{opaque{}}
 		}
 	}
-	maxDigits := x.w / 4
-	digits := maxDigits
-	for k := 1; k < maxDigits; k++ {
-		lim := mkConst(x.w, uint64(1)<<uint(4*k))
-		if fr.truth(norm(mkCmp(OpUlt, x, lim), boolType), "fmt-hex-digits") {
-			digits = k
-			break
-		}
+	digits := width
+	if 4*digits > x.w {
+		digits = x.w / 4
 	}
 	var out []value
-	if width > digits {
-		pad := byte(' ')
-		if zeroPad {
-			pad = '0'
-		}
-		for k := 0; k < width-digits; k++ {
-			out = append(out, pad)
-		}
+	for k := 0; k < width-digits; k++ {
+		out = append(out, byte('0'))
 	}
 	alpha := byte('a')
 	if upper {
